@@ -24,7 +24,10 @@ func ParseURL(str string) (opt ClientOption, err error) {
 		return opt, err
 	}
 	parseAddr := func(hostport string) (host string, addr string) {
-		host, port, _ := net.SplitHostPort(hostport)
+		host, port, err := net.SplitHostPort(hostport)
+		if err != nil { // no port in hostport: the whole string is the host, possibly a bracketed IPv6 literal
+			host = strings.Trim(hostport, "[]")
+		}
 		if host == "" {
 			host = u.Host
 		}
